@@ -519,7 +519,8 @@ class Constructor(Function):
 
 		# XXX クラス直下に定義された場合のみコンストラクターと見做す @see Closure.match_feature
 		elems = via._full_path.de_identify().elements
-		return len(elems) >= 3 and elems[-3] == 'class_def_raw'
+		scopes = [elem for elem in elems[:-1] if elem in ('class_def_raw', 'function_def_raw')]
+		return len(scopes) > 0 and scopes[-1] == 'class_def_raw'
 
 	@property
 	def is_abstract(self) -> bool:
@@ -573,8 +574,9 @@ class Closure(Function):
 	@override
 	def match_feature(cls, via: Node) -> bool:
 		elems = via._full_path.de_identify().elements
-		is_function = 'class_def_raw' not in elems and 'function_def_raw' not in elems
-		is_method = not is_function and elems[-3] == 'class_def_raw'
+		scopes = [elem for elem in elems[:-1] if elem in ('class_def_raw', 'function_def_raw')]
+		is_function = len(scopes) == 0
+		is_method = not is_function and scopes[-1] == 'class_def_raw'
 		return not is_function and not is_method
 
 	def ref_vars(self) -> list[Var]:
